@@ -691,3 +691,87 @@ func init() {
 		s.showWire("clirawsum", resp.StatusCode, data)
 	}
 }
+
+func init() {
+	// abortheld F: a client asks the server for a view of F while another handle holds F, and goes away before it is
+	// answered; then the holder closes.  Whatever the server did with the abandoned request, nobody holds the file
+	// for long afterwards: a new Open gets it.
+	register("abortheld", func(s *sess, tk []string) {
+		f := s.file(tk[1])
+		s.closeAll()
+		hold, err := os.OpenFile(f.path, os.O_RDWR, 0)
+		must(err)
+		must(flockEx(hold))
+		u := s.serverURL()
+		conn, err := net.Dial("tcp", strings.TrimPrefix(u, "http://"))
+		must(err)
+		rel, _ := filepath.Rel(s.root, f.path)
+		now := wt.Timestamp(time.Now().Unix())
+		fmt.Fprintf(conn, "GET /view?file=%s&retention=-1&from=%s&until=%s&now=%s HTTP/1.1\r\nHost: x\r\n\r\n", url.QueryEscape(rel),
+			url.QueryEscape(wt.Timestamp(0).String()), url.QueryEscape(now.String()), url.QueryEscape(now.String()))
+		time.Sleep(150 * time.Millisecond) // the handler is waiting for the file
+		if tc, ok := conn.(*net.TCPConn); ok {
+			tc.SetLinger(0)
+		}
+		conn.Close()
+		time.Sleep(150 * time.Millisecond)
+		hold.Close()
+		res := "stuck"
+		deadline := time.Now().Add(4 * time.Second)
+		for time.Now().Before(deadline) {
+			if free, err := flockProbe(f.path); err == nil && free {
+				res = "released"
+				break
+			}
+			time.Sleep(20 * time.Millisecond)
+		}
+		s.obs("abortheld %s", res)
+	})
+}
+
+func init() {
+	// clisumtick item=DIR pattern=PAT archive=N t=T step=D: GET /sum with now = the epoch (which means "the clock")
+	// while the library's clock shows D seconds more at every reading.  The answer is an error (the files were
+	// read at instants whose windows differ) or the sum for ONE of the instants seen -- compared with the answers
+	// to the same request with each of those instants given explicitly.
+	handlers["clisumtick"] = func(s *sess, tk []string) {
+		a := parseKV(tk[1:])
+		s.closeAll()
+		s.echo(strings.Join(tk, " "))
+		item := filepath.Base(s.dir) + "." + strings.ReplaceAll(a["item"], "/", ".")
+		t, step := a.num("t", 0), a.num("step", 1)
+		get := func(now string) (int, []byte) {
+			u := fmt.Sprintf("%s/sum?item=%s&pattern=%s&retention=%d&from=%s&until=%s&now=%s", s.serverURL(), url.QueryEscape(item), url.QueryEscape(a["pattern"]),
+				a.num("archive", -1), url.QueryEscape(wt.Timestamp(0).String()), url.QueryEscape(wt.Timestamp(t+100000).String()), url.QueryEscape(now))
+			resp, err := http.Get(u)
+			if err != nil {
+				return -1, nil
+			}
+			defer resp.Body.Close()
+			b, _ := io.ReadAll(resp.Body)
+			return resp.StatusCode, b
+		}
+		old := wt.Now
+		var mu sync.Mutex
+		reads := int64(0)
+		wt.Now = func() time.Time {
+			mu.Lock()
+			defer mu.Unlock()
+			v := t + step*reads
+			reads++
+			return time.Unix(v, 0)
+		}
+		st0, body0 := get(wt.Timestamp(0).String())
+		wt.Now = old
+		verdict := "inconsistent"
+		if st0 != 200 {
+			verdict = "consistent"
+		}
+		for i := int64(0); i <= reads && verdict != "consistent"; i++ {
+			if st, b := get(wt.Timestamp(t + step*i).String()); st == 200 && bytes.Equal(b, body0) {
+				verdict = "consistent"
+			}
+		}
+		s.obs("clisumtick %s", verdict)
+	}
+}
